@@ -41,6 +41,8 @@ class Family:
         # calls with its selector, the raw reader is what the base item getter returns, the next-line reader and the seek
         # helper are the remaining abstract one-/zero-argument methods called by __iter__ / the raw readers
         gi = self.base.methods.get("__getitem__")
+        if gi is not None:
+            gi = prog.resolve_view(self.base, "__getitem__") or gi      # private helpers of the base class inlined (sa/inline.py)
         self.item_getter = self.raw_reader = self.next_reader = self.seek_helper = None
         if gi is not None and len(gi.params) >= 2:
             for n in walk_own(gi.node):
